@@ -227,12 +227,12 @@ def gen(rng, tier):
             if kind == "tenrand":
                 calls.append({"op": "tenrand", "args": {"shape": shp}})
             elif kind == "sptenrand_n":
-                calls.append({"op": "sptenrand", "args": {"shape": shp, "mode": "nonzeros", "p": rng.choice([0, 1, 2, total // 2, total - 1]), "q": 1}})
+                calls.append({"op": "sptenrand", "args": {"shape": shp, "mode": "nonzeros", "p": rng.choice([0, 1, 2, total // 2, total - 1, total]), "q": 1}})
             elif kind == "sptenrand_d":
-                r = rng.choice([Fraction(1, 4), Fraction(1, 2), Fraction(3, 4), Fraction(1, 8), Fraction(7, 8)])
+                r = rng.choice([Fraction(1, 4), Fraction(1, 2), Fraction(3, 4), Fraction(1, 8), Fraction(7, 8), Fraction(1)])
                 calls.append({"op": "sptenrand", "args": {"shape": shp, "mode": "density", "p": r.numerator, "q": r.denominator}})
             else:
-                r = rng.choice([Fraction(1), Fraction(2), Fraction(total - 1), Fraction(1, 2), Fraction(total // 2)])
+                r = rng.choice([Fraction(1), Fraction(2), Fraction(total - 1), Fraction(1, 2), Fraction(total // 2), Fraction(total)])
                 calls.append({"op": "sp_from_function", "args": {"shape": shp, "p": r.numerator, "q": r.denominator,
                                                                  "fn": "uniform" if kind == "spff_u" else "counter"}})
         cases.append(Case("rand_seq", {"seed": seed, "calls": calls}, True))
